@@ -54,6 +54,11 @@ def gen(rng, n):
                 dt = lim + delta
                 info = scen.TI % ('/home/u/' + name, dt.strftime(FMT))
                 dates = [dt.strftime(FMT)]
+                if rng.random() < 0.2:
+                    # what other implementations write around the two keys: a header spelt differently, none at all, another group before
+                    # the date - the entry's date is its first DeletionDate line, wherever it stands
+                    hdr = rng.choice(['[Trash info]\n', '[trash info]\n', '[ Trash Info ]\n', '', '[Trash Info]\n[X-File-Manager]\nIcon=x\n'])
+                    info = hdr + ('Path=/home/u/%s\n' % name) + rng.choice(['', '[X-Extension]\nfoo=bar\n']) + 'DeletionDate=%s\n' % dt.strftime(FMT)
             elif r < 0.62:
                 # characters that str.splitlines() takes for line ends but a text file does not: form feed, vertical tab, FS/GS/RS,
                 # NEL, LINE/PARAGRAPH SEPARATOR.  The info file has ONE DeletionDate line, and it is what stands between '=' and '\n'
@@ -206,6 +211,32 @@ def run(run, thorough):
         if res['steps'][0].get('exc') is not None:
             run.fail('oracle', 'trash-empty ended with an uncaught exception when the file system refused one removal: the remaining entries were not judged',
                      {'scenario': scn, 'exc': res['steps'][0]['exc'], 'stderr': res['steps'][0]['stderr'][-300:]}, key='uncaught-exception', section='refused-removal')
+    # --all-users: the trash directories of EVERY user of the password database, on every volume - also of a user whose home directory
+    # does not exist (a system account, a removed home): its $topdir/.Trash-$uid and $topdir/.Trash/$uid hold entries like any other.
+    # (--all-users is not in the Coq model: oracle only.)
+    au, aum = [], []
+    for days, home in ((7, '/nonexistent'), (7, '/home/other'), (None, '/nonexistent'), (0, '/var/empty')):
+        tree = [['d', '/home/u', 0o755], ['d', '/vol1', 0o755], ['d', '/vol1/.Trash', 0o1777]] + scen.canary()
+        if home == '/home/other':
+            tree.append(['d', home, 0o755])
+        ents = []
+        lim = NOW - datetime.timedelta(days=days if days is not None else 3)
+        for td in ('/vol1/.Trash-1001', '/vol1/.Trash/1001', '/vol1/.Trash-1000'):
+            for tag, delta in (('old', -datetime.timedelta(days=2)), ('new', datetime.timedelta(days=2))):
+                nm = tag + td[-5:].replace('/', '_').replace('-', '_')
+                dt = (lim + delta).strftime(FMT)
+                tree += scen.entry(td, nm, 'w/' + nm, dt, 'f')
+                ents.append({'td': td, 'name': nm, 'dates': [dt]})
+        step = {'cmd': 'empty', 'argv': ['--all-users'] + ([str(days)] if days is not None else []) + ['-f'], 'env': {'TRASH_DATE': NOW.strftime(FMT)},
+                'users': [['u', 1000, '/home/u'], ['ghost', 1001, home]]}
+        au.append({'tree': tree, 'mounts': ['/vol1'], 'cwd': '/', 'uid': 1000, 'env': {'HOME': '/home/u', 'TRASH_VOLUMES': '/:/vol1'}, 'steps': [step],
+                   'judge_meta': {'days': days, 'ents': ents, 'orphans': [], 'micro': 0}})
+        aum.append({'days': days, 'ents': ents, 'orphans': [], 'micro': 0})
+    for scn, m, res in zip(au, aum, sandbox.execute_many(au)):
+        if res.get('harness_error') or not res.get('steps'):
+            run.fail('harness', 'sandbox failure', {'error': res.get('harness_error'), 'scenario': scn})
+            continue
+        judge(run, scn, m, res, section='all-users')
     if out:
         run.sample({'level': 'state', 'argv': out[0][0]['steps'][0]['argv'], 'entries': metas[0]['ents'][:3]})
 
